@@ -1799,7 +1799,13 @@ class FrozenSet(Opcode):
         else:
             raise ValueError("Exhausted the stack while searching for a MarkObject!")
 
-        interpreter.stack.append(ast.Constant(ast.Set(elts=objs[::-1])))
+        # There is no frozenset literal, and an ast.Constant wrapping an ast.Set is not a valid
+        # constant (it unparses to the repr of the node object), so emit `frozenset({...})`
+        if objs:
+            args = [ast.Set(elts=objs[::-1])]
+        else:
+            args = []
+        interpreter.stack.append(ast.Call(ast.Name("frozenset", ast.Load()), args, []))
 
 
 class Dup(Opcode):
